@@ -164,7 +164,21 @@ def rule_sinks(rep, prog, eff):
             # ---- B: pointer not moved: extent must be <= parent's
             ok = False
             detail = ""
-            if ext is None or parent_extent_ok(eff, parent, parent_adt, ext):
+            ref_ok = True
+            if ext is None and short == "VolatileRef":
+                # a VolatileRef<T> covers size_of::<T>() bytes: the parent at whose address it is placed must be known to hold them
+                fs = b.facts_at(c.pos)
+                ref_ok = False
+                for r in fs:
+                    if r[0] == 'cmp' and r[1] == 'Eq':
+                        sides = [eff.inline(r[2]), eff.inline(r[3])]
+                        if any(is_sizeof(s) for s in sides) and any((is_call(s, "VolatileSlice::len") or (s[0] == 'field' and s[2] == 'size')) and
+                                                                     any(x == deep_strip(parent) for x in subterms(s)) for s in sides):
+                            ref_ok = True
+            if not ref_ok:
+                ok = False
+                detail = ""
+            elif ext is None or parent_extent_ok(eff, parent, parent_adt, ext):
                 ok = True
                 detail = f"same address, extent `{tstr(eff.inline(ext)) if ext is not None else 'size_of::<T>()'}` is the parent's own extent"
                 if short == "VolatileArrayRef" and (parent_adt or "").endswith("VolatileSlice"):
@@ -181,7 +195,9 @@ def rule_sinks(rep, prog, eff):
                     if le and effects.base_of(s[2][0]) == parent and deep_strip(s[2][le - 1]) == ext:
                         ok = True
                         detail = f"dominated by successful `{canon(s[1]).split('::')[-1]}({tstr(parent)}, {tstr(ext)})` which guarantees extent <= len"
-            rep("R1.2.same_addr", inst, ok, where, detail if ok else f"accessor at the parent's address with extent `{tstr(ext)}` but nothing shows extent <= len(`{tstr(parent)}`)")
+            rep("R1.2.same_addr", inst, ok, where, detail if ok else
+                (f"VolatileRef<T> placed at the address of `{tstr(parent)[:80]}` but nothing shows that parent holds size_of::<T>() bytes (a start-only check such as offset() accepts start == len)" if not ref_ok else
+                 f"accessor at the parent's address with extent `{tstr(ext)}` but nothing shows extent <= len(`{tstr(parent)}`)"))
     return n
 
 
